@@ -484,6 +484,20 @@ def diff(ctx, lines, what, classes=None, nontrivial=None, tags=("verif",), race=
     for i, o in enumerate(mod):
         if o.startswith(("EXC", "CRASH", "HANG", "ERR unknown", "MODEL-INTERNAL")):
             raise FrameworkError("model failed on case %r: %s" % (lines[i][:200], o[:300]))
+    # a watchdog expiry is confirmed before it counts: the case is re-run alone with a long period
+    # (a loaded machine must not be mistaken for a deadlock; a real deadlock stays hung)
+    hung = [i for i, o in enumerate(impl) if o.startswith("HANG")]
+    if hung:
+        env2 = dict(impl_env or os.environ, VERIF_WATCHDOG_SEC="400")
+        for i in hung[:4]:
+            r = run_lines(h, [lines[i]], env2, cpus, 1, 900, gomaxprocs, impl_prefix)
+            log("watchdog expiry on %r re-run alone: %s" % (lines[i][:80], r[-1][:60] if r else "?"))
+            if r and not r[-1].startswith("HANG"):
+                impl[i] = r[-1]
+        if all(not impl[i].startswith("HANG") for i in hung[:4]) and len(hung) > 4:
+            r = run_lines(h, [lines[i] for i in hung[4:]], env2, cpus, 1, 3000, gomaxprocs, impl_prefix)
+            for i, o in zip(hung[4:], r[-len(hung[4:]):]):
+                impl[i] = o
     ctx.compare(lines, impl, mod, what, norm=norm)
     for i, l in enumerate(lines):
         k = keyfn(l) if keyfn else l
